@@ -25,6 +25,8 @@ import (
 	"runtime"
 	"sync"
 	"unsafe"
+
+	"github.com/uber-go/tally/v4/internal/verifhook"
 )
 
 var (
@@ -125,6 +127,7 @@ func (r *scopeRegistry) Report(reporter StatsReporter) {
 			closed := s.closed.Load()
 
 			s.report(reporter)
+			verifhook.Point(verifhook.RegScopeReported)
 
 			if closed {
 				r.removeWithRLock(subscopeBucket, name, s)
@@ -151,6 +154,7 @@ func (r *scopeRegistry) CachedReport() {
 			closed := s.closed.Load()
 
 			s.cachedReport()
+			verifhook.Point(verifhook.RegScopeReported)
 
 			if closed {
 				r.removeWithRLock(subscopeBucket, name, s)
@@ -206,6 +210,7 @@ func (r *scopeRegistry) Subscope(parent *scope, prefix string, tags map[string]s
 			return s
 		}
 
+		verifhook.Point(verifhook.ReacquireBeforeReport)
 		switch {
 		case parent.reporter != nil:
 			s.report(parent.reporter)
@@ -235,6 +240,7 @@ func (r *scopeRegistry) Subscope(parent *scope, prefix string, tags map[string]s
 	// ref: https://go.dev/play/p/sxhExUKSxCw
 	unsanitizedKey = (unsanitizedKey + ".")[:len(unsanitizedKey)]
 
+	verifhook.Point(verifhook.SubscopeUpgrade)
 	subscopeBucket.mu.Lock()
 	defer subscopeBucket.mu.Unlock()
 
@@ -307,6 +313,8 @@ func (r *scopeRegistry) removeWithRLock(subscopeBucket *scopeBucket, key string,
 	//      RLocked state prior to exiting. Defer order is important (LIFO).
 	subscopeBucket.mu.RUnlock()
 	defer subscopeBucket.mu.RLock()
+	defer verifhook.Point(verifhook.RemoveHandover2)
+	verifhook.Point(verifhook.RemoveHandover1)
 	subscopeBucket.mu.Lock()
 	defer subscopeBucket.mu.Unlock()
 	// n.b. The read lock was released above, so by now the key may refer to a
